@@ -189,24 +189,7 @@ func rulesC04(e *Engine, r *Report) {
 		r.Check(len(vals) >= 2, "R04.6", "stage.newLocalCompanion: Prev set on the reused and on the fresh companion", e.Pos(fn.Pos()),
 			"one branch of the companion constructor loses the announced predecessor", len(vals), vals...)
 	}
-	// recover(): every recoverFile with a `left` list takes prev from the receiver's partial
-	if fn := needFn(e, r, "R04.6", "client.(*Broker).recover"); fn != nil {
-		n := 0
-		for _, cf := range WithClosures(fn) {
-			for _, a := range e.allocsOf(cf, "client.recoverFile") {
-				left := e.storesToAllocField(a, "left")
-				prev := e.storesToAllocField(a, "prev")
-				if len(left) == 0 {
-					continue
-				}
-				n++
-				ok := len(prev) == 1 && pat("§.Prev").MatchString(prev[0])
-				r.Check(ok, "R04.6", fmt.Sprintf("%s: recoverFile{left: …} #%d carries prev of the receiver's partial", e.ShortName(cf), n), e.InstrPos(a),
-					"a resumed file loses the predecessor it had announced", 1, append([]string{"left=" + strings.Join(left, ",")}, prev...)...)
-			}
-		}
-		r.Min("R04.6", "recoverFile literals with a left list in recover()", n, 2)
-	}
+	e.checkRecoverKeepsPrev(r, "R04.6")
 	if fn := needFn(e, r, "R04.6", "client.(*binnable).GetPrev"); fn != nil {
 		ok := false
 		Instrs(fn, func(in ssa.Instruction) {
@@ -255,4 +238,28 @@ func (e *Engine) storesToAllocField(a *ssa.Alloc, name string) []string {
 		}
 	}
 	return out
+}
+
+// checkRecoverKeepsPrev: files resumed after a sender restart keep the
+// predecessor they had announced (it is on the receiver's partial record, not
+// in the sender's cache).  Shared by R04.6 and R10.8.
+func (e *Engine) checkRecoverKeepsPrev(r *Report, rule string) {
+	// recover(): every recoverFile with a `left` list takes prev from the receiver's partial
+	if fn := needFn(e, r, rule, "client.(*Broker).recover"); fn != nil {
+		n := 0
+		for _, cf := range WithClosures(fn) {
+			for _, a := range e.allocsOf(cf, "client.recoverFile") {
+				left := e.storesToAllocField(a, "left")
+				prev := e.storesToAllocField(a, "prev")
+				if len(left) == 0 {
+					continue
+				}
+				n++
+				ok := len(prev) == 1 && pat("§.Prev").MatchString(prev[0])
+				r.Check(ok, rule, fmt.Sprintf("%s: recoverFile{left: …} #%d carries prev of the receiver's partial", e.ShortName(cf), n), e.InstrPos(a),
+					"a resumed file loses the predecessor it had announced", 1, append([]string{"left=" + strings.Join(left, ",")}, prev...)...)
+			}
+		}
+		r.Min(rule, "recoverFile literals with a left list in recover()", n, 2)
+	}
 }
